@@ -164,6 +164,8 @@ type Opts struct {
 	// struct is reused for several calls; 0: a fresh pre-filled struct.
 	InfoSlot int  `json:"infoslot,omitempty"`
 	CB       bool `json:"cb,omitempty"`
+	// ExportFalse: dig.Export(false) is passed explicitly (same as no option)
+	ExportFalse bool `json:"exportfalse,omitempty"`
 	// CBPanic: the callback panics the first time it is called (callbacks are
 	// user code too). What Invoke then returns is not covered by a property;
 	// the state left behind is (C02: what completed stays completed).
@@ -289,6 +291,9 @@ func (o *Opts) Short() string {
 	}
 	if o.Export {
 		parts = append(parts, "Export")
+	}
+	if o.ExportFalse {
+		parts = append(parts, "Export(false)")
 	}
 	if o.Info {
 		if o.InfoSlot > 0 {
